@@ -26,6 +26,7 @@ structure Basic (cfg : Cfg) (s : St) : Prop where
   wcancel_iff : s.wcancel = true ↔ (s.firstErr = true ∨ s.term = .close0 ∨ s.term = .close1 ∨ s.term = .ret)
   noBadW : s.badWindow = false
   noBadO : s.badOverlap = false
+  closes_eq : s.closes = if s.srcClosed then 1 else 0
 
 theorem basic_init (cfg : Cfg) : Basic cfg (init cfg) := by
   constructor <;> simp [init, St.wctx]
@@ -33,7 +34,7 @@ theorem basic_init (cfg : Cfg) : Basic cfg (init cfg) := by
 set_option maxHeartbeats 4000000 in
 theorem basic_step {cfg : Cfg} {s s' : St} {l : Label} (h : Basic cfg s) (hs : step cfg s l = some s') :
     Basic cfg s' := by
-  obtain ⟨h1, h2, h3, h4, h5, h6, h7, h8, h9, h10, h11, h12, h13, h14⟩ := h
+  obtain ⟨h1, h2, h3, h4, h5, h6, h7, h8, h9, h10, h11, h12, h13, h14, h15⟩ := h
   step_cases hs <;>
     (constructor <;> (try (simp_all [List.length_erase_of_mem, St.wctx])) <;> (try grind [List.length_pos_of_mem]))
 
